@@ -38,8 +38,8 @@ func c10lendDraw(r *rng) c10lendCase {
 	cs.buffer = c10Dec([]string{"1.2", "1.0", "1.5", "1.15"}[r.intn(4)])
 	cs.cusp = c10Dec([]string{"0.6", "0.7", "0.5", "0.9", "0.833333333333333333"}[r.intn(5)])
 	cs.dur = r.pickU(10, 60, 77, 300, 21600)
-	cs.bonus = c10Dec([]string{"0.05", "0", "0.025", "0.1"}[r.intn(4)])
-	cs.penalty = c10Dec([]string{"0.05", "0", "0.025", "0.1"}[r.intn(4)])
+	cs.bonus = c10Dec([]string{"0.05", "0.001", "0.025", "0.1"}[r.intn(4)])
+	cs.penalty = c10Dec([]string{"0.05", "0.001", "0.025", "0.1"}[r.intn(4)])
 	cs.dust = r.pickU(0, 100000, 1000000, 100000)
 	cs.dc, cs.dd = 1000000, 1000000
 	if r.chance(15) {
